@@ -313,13 +313,13 @@ def run(tier: str) -> int:
         o.extra["demo_asis_counterexample"] = bool(demo.invariant_violated)
         if not demo.invariant_violated:
             raise common.TLCError("Demo_Unparse_asis lost its counterexample")
-        # M, empty parts: the ideal emitter round-trips every call / argument reference / link with empty
-        # arguments inside the model; every what-if emitter that takes an empty argument for an absent one does not
-        em = tlc("MC_Unparse", "MC_Unparse_E.cfg", workers=1, timeout=3000, env={"TAGS_FILE": tags_file})
-        o.add_tlc("MC_Unparse_E empty parts in-model round trip + what-if emitters", em)
+        # M, empty parts (invariant EmptyParts of the same run, evaluated in one state): the ideal emitter round-trips
+        # every call / argument reference / link with empty arguments inside the model; every what-if emitter that
+        # takes an empty argument for an absent one does not (TLC prints its witness)
+        em = mc
         whatifs = em.tagged("WHATIF")
         if em.tagged("EMPTYFAIL") or len(whatifs) != 3:
-            raise common.TLCError("MC_Unparse_E: the in-model round trip of the empty-part pages failed or a what-if lost its witness")
+            raise common.TLCError("MC_Unparse EmptyParts: the in-model round trip of the empty-part pages failed or a what-if lost its witness")
         o.extra["empty_parts_whatif_witnesses"] = [
             {"what_if": w["dev"], "pages_broken": w["pages"], "text": ptree2.concretise(w["text"]),
              "emitted": ptree2.concretise(w["emitted"])} for w in whatifs]
@@ -384,7 +384,9 @@ def replay(path: str) -> int:
 def selftest() -> int:
     """An intact recorded round trip is accepted; dropping an attribute, changing a text,
     turning text into a LINK or changing inner whitespace in t2 is rejected; adding blank
-    lines at block boundaries is accepted."""
+    lines at block boundaries is accepted.  Empty parts: dropping an empty argument of a parser
+    function / template / link or turning the parser function into a template is rejected, with
+    TLC's diagnosis (the link one marked soft)."""
     import copy
 
     common.use_repo()
@@ -420,11 +422,47 @@ def selftest() -> int:
     v["t3"]["children"].append({"s": ["NL", "NL"]})
     find(v["t3"], "TABLE_CELL")["children"].insert(0, {"s": ["NL", "SP"]}) if "s" not in find(v["t3"], "TABLE_CELL")["children"][0] else None
     variants.append(("extra blank lines at block boundaries in t3", v, False))
+    # empty parts: an empty argument is an argument
+    text2 = "a1 {{#if:|}} {{t||b1}} [[l|]]\n"
+    with Scratch("c19s-") as d:
+        ctx = ptree2.new_ctx(d)
+        rec2 = chain(ctx, text2, None, 0)
+        ctx.db_conn.close()
+
+    def find_any(t, kind):
+        if "s" in t:
+            return None
+        if t["kind"] == kind:
+            return t
+        for xs in [t["children"]] + t["largs"]:
+            for x in xs:
+                r = find_any(x, kind)
+                if r:
+                    return r
+        return None
+
+    variants.append(("intact, with empty arguments", rec2, False))
+    v = copy.deepcopy(rec2)
+    find_any(v["t2"], "PARSER_FN")["largs"].pop()
+    variants.append(("empty last argument of {{#if:|}} missing in t2", v, True))
+    v = copy.deepcopy(rec2)
+    find_any(v["t2"], "PARSER_FN")["kind"] = "TEMPLATE"
+    variants.append(("{{#if:|}} is a TEMPLATE in t2", v, True))
+    v = copy.deepcopy(rec2)
+    del find_any(v["t2"], "TEMPLATE")["largs"][1]
+    variants.append(("empty first argument of {{t||b1}} missing in t2", v, True))
+    v = copy.deepcopy(rec2)
+    find_any(v["t2"], "LINK")["largs"].pop()
+    variants.append(("empty argument of [[l|]] missing in t2 (rejected, marked soft = DRIFT)", v, True))
     res = trace_batch([], [(i, r) for i, (_, r, _) in enumerate(variants)], [])
-    bad = {i for i, _ in res["bad"]}
+    bad = {i: b for i, b in res["bad"]}
     ok = True
     for i, (name, _, expect_bad) in enumerate(variants):
         got = i in bad
-        print(f"  {name}: {'rejected' if got else 'accepted'}")
+        print(f"  {name}: {'rejected' if got else 'accepted'}" + (describe(bad[i].get("diag")) if got else ""))
         ok &= got == expect_bad
+        if got and "soft" in name:
+            ok &= bad[i]["diag"]["soft"] is True
+        elif got:
+            ok &= bad[i]["diag"]["soft"] is False and bad[i]["diag"]["what"] != ""
     return 0 if ok else 1
